@@ -3,10 +3,13 @@
    Heap/More.v) is hand-written after src/utilities/block_duration_assignment.cpp and tied to libadm by the
    differential run (structured scenes; the expected outcome is recomputed with exact fractions by the oracle).
    Proved for all inputs: the block-level rewrite (A), exact contiguity for decimal times (B), and that every failure
-   of the duration computation leaves the state unchanged (C).  Partial (suffix _partial): contiguity as an equation
-   between rational numbers for fractional times rests on the correctness of the normalising arithmetic
-   (rnorm / gcd), which is compared with libadm only by the differential run. *)
-From Adm Require Import Heap.Exec Heap.More Heap.Frame Heap.Durations.
+   of the duration computation leaves the state unchanged (C), and (D, Heap/Rational.v) that the rational arithmetic -
+   boost::rational normalisation, subtractTimes, timesEqual - is exact, so that for decimal and fractional times
+   alike each block's duration equals, as a fraction, the next block's rtime minus its own and the last block ends at
+   the total.  What stays outside the theorems: how the effective total of a channel format is chosen among objects,
+   programme and file length (the model's phase 1 is compared with libadm by the differential run), and 64-bit
+   overflow of boost::rational (the model uses unbounded integers). *)
+From Adm Require Import Heap.Exec Heap.More Heap.Frame Heap.Durations Heap.Rational.
 Local Open Scope Z_scope.
 
 (* (A) same blocks, same IDs, rtimes and payloads; each duration is the difference to the next rtime (the last one:
@@ -41,6 +44,21 @@ Theorem C16_no_programme_no_length : forall d s x, get_doc s d = Some x -> membe
   fix_durations d None s = (s, inr OtherExn).
 Proof. exact no_programme_no_length_changes_nothing. Qed.
 Print Assumptions C16_no_programme_no_length.
+
+(* (D) exact rational arithmetic *)
+Theorem C16_subtract_times_exact : forall a b, valid a -> valid b ->
+  valid (subtract_times a b) /\ qdiff (tq (subtract_times a b)) (tq a) (tq b).
+Proof. exact subtract_times_exact. Qed.
+Print Assumptions C16_subtract_times_exact.
+
+Theorem C16_times_equal_sound : forall a b, valid a -> valid b -> times_equal a b = true -> qeq (tq a) (tq b).
+Proof. exact times_equal_sound. Qed.
+Print Assumptions C16_times_equal_sound.
+
+(* every block's duration is, as a fraction, the next rtime minus its rtime; the last block ends at the total *)
+Theorem C16_contiguous : forall l total, Forall vblock l -> valid total -> contiguous_q (fix_blocks l total) total.
+Proof. exact fix_blocks_contiguous_q. Qed.
+Print Assumptions C16_contiguous.
 
 Example C16_three_blocks :
   let b r d := mkBlock (mkId 3 4097 0) r d 0 in
